@@ -1,4 +1,5 @@
 import KitModel.Go.Prelude
+import KitModel.Generated.C19
 /-!
 Model of `crypto/spiffe` (`spiffe.go`, `svidsource.go`) for property C19.
 
@@ -283,12 +284,14 @@ def accept (v : Variant) (tr : List Ev) : Option Nat × Sim :=
 
 /-! ## (b) renewal automaton on a fake clock -/
 
-def minute : Int := 60000000000
-def tenSec : Int := 10000000000
+/-- Cap of the rotation timer: the constant in the source (`time.Minute`), regenerated on every run. -/
+def minute : Int := Kit.Generated.C19.wakeCapNs
+/-- Wait before a failed renewal is retried: the constant in the source (`10 * time.Second`). -/
+def tenSec : Int := Kit.Generated.C19.retryNs
 
 /-- `renewalTime`: 50 % through the validity period (Go: `notBefore.Add(notAfter.Sub(notBefore) / 2)`,
 integer division truncating toward zero). -/
-def renewalTime (nb na : Int) : Int := nb + (na - nb).tdiv 2
+def renewalTime (nb na : Int) : Int := nb + (na - nb).tdiv Kit.Generated.C19.renewalDivisor
 
 structure Cert where
   tok : Nat
